@@ -478,3 +478,4 @@ def run(ctx):
   c05.r11_constant_numeric_table(ctx, 'C04.R13')
   shared.rule_operator_sweep(ctx, 'C04.R14')
   shared.rule_weight_bias_parameters(ctx, 'C04.R15')
+  shared.rule_fixed_range_pipeline(ctx, 'C04.R16')
